@@ -226,29 +226,30 @@ type vtimer struct {
 }
 
 type Sched struct {
-	opt      Options
-	chooser  Chooser
-	tasks    []*Task
-	cur      *Task
-	last     *Task
-	doneCh   chan struct{}
-	aborting bool
-	ended    bool
-	now      time.Duration
-	timers   []*vtimer
-	tseq     int
-	steps    int
-	out      *Outcome
-	runID    uint64
-	sum      H // commutative sum over tasks of mix(path, h_t)
-	clock    Obj
-	clockH   H
-	chans    map[uintptr]*chanInfo
-	env      *Env
-	nchoice  int
-	rootT    *Task
-	shadows  map[uintptr]*shadow
-	stmtOn   bool
+	opt       Options
+	chooser   Chooser
+	tasks     []*Task
+	cur       *Task
+	last      *Task
+	doneCh    chan struct{}
+	aborting  bool
+	ended     bool
+	now       time.Duration
+	timers    []*vtimer
+	tseq      int
+	steps     int
+	out       *Outcome
+	runID     uint64
+	sum       H // commutative sum over tasks of mix(path, h_t)
+	clock     Obj
+	clockH    H
+	chans     map[uintptr]*chanInfo
+	env       *Env
+	nchoice   int
+	rootT     *Task
+	shadows   map[uintptr]*shadow
+	stmtOn    bool
+	stmtAllOn bool
 }
 
 // S is the scheduler of the execution in progress (nil outside Run).
